@@ -394,6 +394,69 @@ Qed.
 Theorem radii_nonincreasing N pi : greedyb d N [] pi = true -> noninc (lambdas d pi).
 Proof. apply greedy_noninc. Qed.
 
+(* a farthest-point order exists from every starting point: greedy_from is one *)
+Lemma ole_total a b : ole a b = false -> ole b a = true.
+Proof.
+  destruct a as [x|], b as [y|]; simpl; try congruence; try reflexivity.
+  intro H. apply qle_iff. apply Qlt_le_weak. apply qle_false. exact H.
+Qed.
+Definition arg_inv (prev S : list nat) (best : option nat) : Prop :=
+  match best with
+  | None => forall x, In x S -> memb x prev = true
+  | Some b => memb b prev = false /\ In b S /\
+              forall x, In x S -> memb x prev = true \/ ole (dist_to d prev x) (dist_to d prev b) = true
+  end.
+Lemma argfar_fold prev : forall l S best, arg_inv prev S best ->
+  arg_inv prev (S ++ l)
+    (fold_left (fun best x => if memb x prev then best else
+                                match best with None => Some x
+                                | Some b => if ole (dist_to d prev x) (dist_to d prev b) then best else Some x end) l best).
+Proof.
+  induction l as [|x l IH]; intros S best H; simpl; [rewrite app_nil_r; exact H|].
+  replace (S ++ x :: l) with ((S ++ [x]) ++ l) by (rewrite <- app_assoc; reflexivity).
+  apply IH. destruct (memb x prev) eqn:Ex.
+  - destruct best as [b|]; simpl in *.
+    + destruct H as [H1 [H2 H3]]. split; [exact H1|]. split; [apply in_app_iff; left; exact H2|].
+      intros y Hy. apply in_app_iff in Hy. destruct Hy as [Hy|[Hy|[]]]; [apply H3; exact Hy|subst; left; exact Ex].
+    + intros y Hy. apply in_app_iff in Hy. destruct Hy as [Hy|[Hy|[]]]; [apply H; exact Hy|subst; exact Ex].
+  - destruct best as [b|]; simpl in *.
+    + destruct H as [H1 [H2 H3]]. destruct (ole (dist_to d prev x) (dist_to d prev b)) eqn:Eo; simpl.
+      * split; [exact H1|]. split; [apply in_app_iff; left; exact H2|].
+        intros y Hy. apply in_app_iff in Hy. destruct Hy as [Hy|[Hy|[]]]; [apply H3; exact Hy|subst; right; exact Eo].
+      * split; [exact Ex|]. split; [apply in_app_iff; right; left; reflexivity|].
+        intros y Hy. apply in_app_iff in Hy. destruct Hy as [Hy|[Hy|[]]].
+        -- destruct (H3 _ Hy) as [A|A]; [left; exact A|right]. eapply ole_trans; [exact A|apply ole_total; exact Eo].
+        -- subst. right. apply ole_refl.
+    + split; [exact Ex|]. split; [apply in_app_iff; right; left; reflexivity|].
+      intros y Hy. apply in_app_iff in Hy. destruct Hy as [Hy|[Hy|[]]]; [left; apply H; exact Hy|subst; right; apply ole_refl].
+Qed.
+Lemma argfar_spec N prev q : argfar d N prev = Some q ->
+  (q < N)%nat /\ memb q prev = false /\
+  forall x, In x (seq 0 N) -> memb x prev = true \/ ole (dist_to d prev x) (dist_to d prev q) = true.
+Proof.
+  unfold argfar. intro H.
+  assert (I0 : arg_inv prev [] None) by (intros x []).
+  pose proof (argfar_fold prev (seq 0 N) [] None I0) as I. simpl in I. rewrite H in I. simpl in I.
+  destruct I as [I1 [I2 I3]]. split; [apply in_seq in I2; lia|]. split; assumption.
+Qed.
+Lemma greedy_more_greedy N : forall fuel prev, greedyb d N prev (greedy_more d N fuel prev) = true.
+Proof.
+  induction fuel as [|f IH]; intro prev; simpl; [reflexivity|].
+  destruct (argfar d N prev) as [q|] eqn:E; [|reflexivity].
+  apply argfar_spec in E. destruct E as [E1 [E2 E3]]. simpl.
+  rewrite !andb_true_iff. split; [split; [split|]|apply IH].
+  - apply Nat.ltb_lt. exact E1.
+  - rewrite E2. reflexivity.
+  - apply forallb_forall. intros x Hx. apply orb_true_iff. exact (E3 x Hx).
+Qed.
+Theorem greedy_from_greedy N s : (s < N)%nat -> greedyb d N [] (greedy_from d N s) = true.
+Proof.
+  intro H. unfold greedy_from. simpl. rewrite !andb_true_iff. split; [split; [split|]|apply greedy_more_greedy].
+  - apply Nat.ltb_lt. exact H.
+  - reflexivity.
+  - apply forallb_forall. intros x _. reflexivity.
+Qed.
+
 (* ------------------------------------------------------------------ 5. the boolean specification checks mean what they say *)
 Theorem sub_neverb_sound K : sub_neverb d K = true -> forall s f, In (s, f) K -> in_rips d s f.
 Proof.
